@@ -6,7 +6,7 @@
    disjoint, none before lo; [ssum vss x] = the sum over the streams vss of their value at base x (0 where absent);
    [nz_opt z] = None when z = 0, Some z otherwise. *)
 From BT Require Import Base.Util Model.Merge Model.Fill Model.MergeTool
-  Proofs.MergeSig Proofs.MergeInto Proofs.MergeWin Proofs.MergeMany Proofs.FillOk Proofs.MergeToolOk.
+  Proofs.MergeSig Proofs.MergeInto Proofs.MergeWin Proofs.MergeMany Proofs.FillOk Proofs.MergeToolOk Proofs.MergeToolRun Generated.Consts.
 Local Open Scope N_scope.
 
 (* ------------------------------------------------------------------ merge_into *)
@@ -47,6 +47,14 @@ Theorem C15_merge_many : forall W vss, 0 < W -> Forall (sorted_from 0) vss ->
     forall x, sig out x = nz_opt (ssum vss x).
 Proof. exact merge_many_ok. Qed.
 Print Assumptions C15_merge_many.
+
+(* the instance the code runs: DATA_SIZE as translated from merge.rs on every run (re-checked when it changes) *)
+Theorem C15_merge_many_code_window : forall vss, Forall (sorted_from 0) vss ->
+  exists out, merge_sections_many MERGE_DATA_SIZE (map (map IV) vss) = Ok (map IV out) /\
+    sorted_from 0 out /\ Forall (fun v => v_val v <> 0%Z) out /\
+    forall x, sig out x = nz_opt (ssum vss x).
+Proof. intros vss. apply merge_many_ok. reflexivity. Qed.
+Print Assumptions C15_merge_many_code_window.
 
 (* non-vacuity: three streams, W = 4: window crossings, a cancelling stretch [2,3), an explicit zero, a short stream;
    the run of -4 over [3,6) comes out split at the window boundary 4 *)
@@ -139,3 +147,47 @@ Proof.
         (conj (proj1 (detect_type t name)) (conj (proj2 (detect_type t name)) (detect_documented stem))))).
 Qed.
 Print Assumptions C15_output_names.
+
+(* ------------------------------------------------------------------ the merge tool, a whole run *)
+(* Inputs: any number of files, each a list of chromosomes (name, length, stored values), every chromosome's values
+   sorted, disjoint and inside [0, length) ([files_ok]).  For every window size and every descriptor budget >= 2:
+   either two inputs disagree on a chromosome's length and the run is the MismatchedChroms error, or
+   the chromosome table is built, every chromosome name occurring in ANY input is in it (chromosomes missing from
+   some inputs included), each entry's inputs are exactly the inputs that have that chromosome ([chrom_inputs]),
+   and -- when the output type is recognised -- the rows are, chromosome by chromosome in table order, sorted
+   disjoint values whose per-base signal is [tool_expected] of those inputs at EVERY base (from base 0);
+   an unrecognised output type writes nothing. *)
+Theorem C15_tool_run : forall W maxfds files thr adj clip ty name,
+  0 < W -> (2 <= maxfds)%nat -> files_ok files ->
+  (exists table,
+     chrom_table (all_names files) files [] = Ok table /\
+     Forall (entry_ok files) table /\
+     (forall f c, In f files -> In c f -> bt_has (fst (fst c)) table = true) /\
+     match detect_output ty name with
+     | None => tool_run W maxfds files thr adj clip ty name = Ok None
+     | Some t => exists outs, tool_run W maxfds files thr adj clip ty name = Ok (Some (t, rows_spec table outs)) /\
+                              Forall2 (out_ok thr adj clip) table outs
+     end)
+  \/ (chrom_table (all_names files) files [] = Err 1 /\ tool_run W maxfds files thr adj clip ty name = Err 1).
+Proof. exact tool_run_ok. Qed.
+Print Assumptions C15_tool_run.
+
+(* the bedGraph writer and the bigWig writer are handed the same rows (what each writer then does with them is
+   C01/C16 territory and is compared differentially through the real binaries) *)
+Theorem C15_outputs_agree : forall W maxfds files thr adj clip ty1 name1 ty2 name2 t1 rows1 t2 rows2,
+  tool_run W maxfds files thr adj clip ty1 name1 = Ok (Some (t1, rows1)) ->
+  tool_run W maxfds files thr adj clip ty2 name2 = Ok (Some (t2, rows2)) -> rows1 = rows2.
+Proof. exact outputs_agree. Qed.
+Print Assumptions C15_outputs_agree.
+
+(* non-vacuity: two files, chromosome "b" missing from the second; name "out.bedGraph"; on "a" the sum is 1.5 on
+   [0,5) (split at the window boundary 4), 0 on [5,10) (absent) and -1.5 on [10,12) (below the threshold 0) *)
+Example C15_tool_run_example :
+  let files : list bwfile := [[([97], 20, [mkV 0 10 12%Z]); ([98], 9, [mkV 1 3 8%Z])]; [([97], 20, [mkV 5 12 (-12)%Z])]] in
+  files_ok files /\
+  tool_run 4 2 files 0 None None None [111; 117; 116; 46; 98; 101; 100; 71; 114; 97; 112; 104] =
+    Ok (Some (OBedGraph, [([97], mkV 0 4 12%Z); ([97], mkV 4 5 12%Z); ([98], mkV 1 3 8%Z)])).
+Proof.
+  cbv zeta. split; [|vm_compute; reflexivity].
+  repeat constructor; cbn [fst snd sorted_from end_from v_start v_end]; lia.
+Qed.
